@@ -812,3 +812,23 @@ V("jf-wait-half", ["C14", "C15"], JF, "fire",
 V("jf-benign-comprehension", ["C14"], JF, "benign",
   (JIT, "    compiled_objects = []\n    for name in object_names:\n        obj = getattr(compiled_module.lib, name)\n        compiled_objects.append(obj)\n",
         "    compiled_objects = [getattr(compiled_module.lib, name) for name in object_names]\n"))
+
+# ---- tensor -> scalar lowering --------------------------------------------------------------------------------------
+VNF = "ffcx/ir/analysis/valuenumbering.py"
+RCF = "ffcx/ir/analysis/reconstruct.py"
+IXF = "ffcx/ir/analysis/indexing.py"
+SZ = ["GEN-SCALARIZE"]
+V("sz-indexed-symbols-reversed", ["C01"], SZ, "fire", (VNF, "        d = map_indexed_arg_components(Aii)\n        symbols = [A_symbols[k] for k in d]", "        d = map_indexed_arg_components(Aii)\n        symbols = [A_symbols[k] for k in reversed(d)]"))
+V("sz-derivative-symmetry-lost", ["C01"], SZ, "fire", (VNF, "                mdc = tuple(sorted(dc))", "                mdc = tuple(dc)"))
+V("sz-derivative-symmetry-too-coarse", ["C01"], SZ, "fire", (VNF, "                mc = mbc + mdc", "                mc = mbc + (sum(mdc),)"))
+V("sz-symmetric-element-ignored", ["C01"], SZ, "fire", (VNF, "                s = mapped_symbols.get(mc)\n                if s is None:\n                    s = self.new_symbol()\n                    mapped_symbols[mc] = s\n                symbols.append(s)\n        else:",
+                                                         "                s = self.new_symbol()\n                mapped_symbols[mc] = s\n                symbols.append(s)\n        else:"))
+V("sz-index-sum-stride", ["C01"], SZ, "fire", (RCF, "            sops.append([ss[ind + j * postdim] for j in range(d)])", "            sops.append([ss[ind + j] for j in range(d)])"))
+V("sz-product-components-swapped", ["C01"], SZ, "fire", (RCF, "    results = [ufl.classes.Product(ops[0][k0], ops[1][k1]) for k0, k1 in indks]", "    results = [ufl.classes.Product(ops[0][k1], ops[1][k0]) for k0, k1 in indks]"))
+V("sz-component-tensor-index-order", ["C01"], SZ, "fire", (IXF, "        p2_to_p1_map[k] = fi1.index(mi[k].count())", "        p2_to_p1_map[k] = fi1.index(mi[len(mi) - 1 - k].count())"))
+V("sz-list-tensor-rows-reversed", ["C01"], SZ, "fire", (VNF, "        for row in v.ufl_operands:\n            symbols.extend(self.get_node_symbols(row))", "        for row in reversed(v.ufl_operands):\n            symbols.extend(self.get_node_symbols(row))"))
+V("sz-division-dispatched-to-sum", ["C01"], SZ, "fire", (RCF, "    ufl.classes.Division: handle_division,", "    ufl.classes.Division: handle_sum,"))
+V("sz-first-node-is-result", ["C01"], SZ, "fire", ("ffcx/ir/analysis/graph.py", "    vs = V_symbols[-1]\n    scalar_expressions = W[vs]", "    vs = V_symbols[0]\n    scalar_expressions = W[vs]"))
+V("sz-fixed-index-ignored", ["C01"], SZ, "fire", (IXF, "        if isinstance(i, FixedIndex):\n            p2[k] = int(i)", "        if isinstance(i, FixedIndex):\n            p2[k] = 0"))
+V("sz-benign-comprehension", ["C01"], SZ, "benign", (VNF, "        symbols = []\n        for row in v.ufl_operands:\n            symbols.extend(self.get_node_symbols(row))\n        return symbols",
+                                                      "        return [s for row in v.ufl_operands for s in self.get_node_symbols(row)]"))
